@@ -38,9 +38,9 @@ var purityTexts = mustParse(`<<
   << <<"Id", "round", FALSE>>, <<"(", "(", FALSE>>, <<"Id", "x", FALSE>>, <<")", ")", FALSE>> >>,
   << <<"(", "(", FALSE>>, <<"Id", "y", FALSE>>, <<")", ")", FALSE>>, <<".", ".", FALSE>>, <<"Id", "k", FALSE>> >> >>`).([]any)
 
-var purityDatas = mustParse(`<< [x |-> <<"int", 2>>, y |-> <<"map", [k |-> <<"bool", TRUE>>]>>, fail |-> <<"func", "fail">>],
-  [x |-> <<"dec", FALSE, <<2,5>>, -1>>, y |-> <<"map", [k |-> <<"int", 0>>]>>, fail |-> <<"func", "fail">>],
-  [y |-> <<"nil">>, fail |-> <<"func", "fail">>] >>`).([]any)
+var purityDatas = mustParse(`<< [x |-> <<"int", 2>>, y |-> <<"map", [k |-> <<"bool", TRUE>>]>>, fail |-> <<"func", "fail">>, crec |-> <<"func", "crec">>],
+  [x |-> <<"dec", FALSE, <<2,5>>, -1>>, y |-> <<"map", [k |-> <<"int", 0>>]>>, fail |-> <<"func", "fail">>, crec |-> <<"func", "crec">>],
+  [y |-> <<"nil">>, fail |-> <<"func", "fail">>, crec |-> <<"func", "crec">>] >>`).([]any)
 
 // TreeDump renders a parsed source with everything a caller can see of it: node kinds, ids,
 // parents (by position), ranges, list ranges, token nodes, source bookkeeping.
@@ -299,6 +299,8 @@ var purityUnrelated = []string{"1 + 2 * 3", "'a' + 'b'", "[1, 2, 3]", "len('abc'
 	"millSecond(date(2020, 1, 1)) - millSecond(useTimezone(date(2020, 1, 1), 'Asia/Kolkata'))",
 	// texts the parser gives up on before the end of the input, next to ordinary ones
 	"1 )", "(1 2", "f(1 2", "a b", "price * qty + 1", "[1, 2] 3", "'s' 't'",
+	// host functions that take the context first (called more than once per process), several back-references to the data map
+	"crec(x)", "crec(1) + crec(2)", "crec('a', 2)", "[crec(y), fail(1)]", "$x = this, $y = this, toString(this)", "$x = this, $y = [this], 'a' + $y",
 	"regexp('a', 'a')", "regexp('a', '(')", "regexp('ab', '[')", "regexp('ab', 'a.')", "regexp('(', '(')",
 	"\u0663 + 1", "n\u0663 * 2", "\u0301 + 1", "cafe\u0301 + 1", "\u203f", "a\u203f", "\u2118x", "x\u2118", "\u00aa\u00b7", "\u00b7\u00aa"}
 
